@@ -49,8 +49,22 @@ def setup(P):
 
 # ------------------------------------------------------------------ candidates
 
+async def _handler(event):
+    return event
+
+
+def _chunks(n):
+    yield n
+
+
+async def _achunks(n):
+    yield n
+
+
 def hostile_pool():
-    return [None, True, False, 0, 1, -1, 2, 10 ** 20, 0.0, -0.0, 1.0, 0.5, NAN, float('nan'), math.inf, -math.inf,
+    # (callables that cannot be called without arguments, among them coroutine / generator functions: values like any other
+    #  for a parameter that does not resolve references)
+    return [_handler, _chunks, _achunks, None, True, False, 0, 1, -1, 2, 10 ** 20, 0.0, -0.0, 1.0, 0.5, NAN, float('nan'), math.inf, -math.inf,
             fractions.Fraction(1, 2), fractions.Fraction(3), decimal.Decimal('1.5'), decimal.Decimal(2), '', 'a', 'abc', '5',
             b'', b'a', b'abc', (), (1,), (1, 2), (1, 2, 3), (1.5, NAN), ('a', 'b'), (None, 2), [], [1], [1, 2, 3], ['a'],
             [len], {}, {'k': 1}, dt.date(2020, 1, 1), dt.datetime(2020, 1, 1), dt.datetime(2020, 1, 1, 0, 0, 1),
